@@ -153,4 +153,22 @@ PROPS = {
         "trusted_base": COMMON_TB + [SERDE_TB, CORE_TB, "PARTIAL: real memory safety and real allocation are runtime behaviour observed by the harness (guard pages, counting allocator), the theorems are about the cursor arithmetic, remainder/prefix structure and size-hint logic of the model", "serde's size_hint::cautious and Vec growth are MODELLED (Model/SizeHint.lean)"],
         "assumptions": ["allocation bound claimed for element types occupying >= 1 wire byte; map pre-allocation (MapAccess::size_hint returns the claimed length, capped by serde at 1 MiB) is outside the property's statement and not checked"],
     },
+    "C12": {
+        "gens": ["C12"],
+        "derive_programs": {"quick": 40, "thorough": 300},
+        "rule": "`maxsize <type description>`: T::POSTCARD_MAX_SIZE of a concrete Rust type vs the model's maxSize, for 66 built-in instantiations (every impl: ints, NonZero*, floats, bool, char, unit, PhantomData, Option, Result, arrays, tuples 1..6, the four ranges, refs/Box/Rc/Arc, heapless Vec/String at capacities 0,1,127,128,16383,16384, hand-written derives incl. generics) plus random #[derive(MaxSize)] programs generated from the seed with the WORKSPACE derive (structs unit/tuple/named, enums with 0,1,2,..,127,128,129 variants, nested); harness oracle per type: every candidate (one per variant, extremes of every field) and 24 random values encode within the constant, a buffer of that size suffices, and for the tight kinds the constant is attained; non-trivial = distinct type",
+        "nontrivial": lambda op, a: True,
+        "diff_is_witness": False,
+        "trusted_base": COMMON_TB + [SERDE_TB, "proc-macro machinery around the derive is MODELLED (only its field/variant arithmetic)", "postcard's `experimental-derive` feature resolves to the registry's postcard-derive 0.1.2 (outside /repo); the checks use the workspace derive source/postcard-derive"],
+        "assumptions": ["usize = 64 bits"],
+    },
+    "C13": {
+        "gens": ["C13"],
+        "rule": "`fix <le|be> <type> <int>`: a struct field with #[serde(with = postcard::fixint::le|be)] for all 8 types x 2 orders: boundary sets, every single-byte-nonzero pattern, random values, u16/i16 strided (entire domain in thorough); oracle: bytes = to_le_bytes/to_be_bytes, decodes back with the remainder intact; non-trivial = distinct op line",
+        "nontrivial": lambda op, a: True,
+        "diff_is_witness": False,
+        "exhaustive": {"quick": [], "thorough": ["u16 and i16, both byte orders"]},
+        "trusted_base": COMMON_TB + [SERDE_TB, "serde's [u8; N] impl (tuple of N u8) and #[serde(with)] plumbing MODELLED"],
+        "assumptions": [],
+    },
 }
